@@ -21,6 +21,7 @@ META = {
     "assumptions": ["safe generic Rust cannot fabricate a reference with the caller's lifetime"],
     "not_decided": ["the nodelist equals the RFC's for every (query, document) pair (value-level)"],
 }
+META["explanation"] += " R3 also: Pointer::key / Pointer::idx extend the parent's path on every result alternative. R6 selector text is rewritten in one left-to-right pass (no str::replace chain whose first replacement can form the second pattern; positive and negative control in the fixture crate). R7 slice and index selectors select exactly the RFC's elements (region analysis of C11-R6, shared)."
 
 Q = "crate::query::Query"
 M = "crate::parser::model::"
